@@ -243,6 +243,11 @@ def generate(rng, tier):
                 enc[j + 1:j + 5] = struct.pack(">I", rng.choice([0xFFFFFFFF, 1000000, 0x80000000]))
                 break
         yield "amf0 decm " + hexs(bytes(enc))
+    # --- long FLAT runs of one byte at a value position (top level, array element, property value): constant stack ---
+    # (0x03, 0x08 and 0x0a open a container, so a run of them is nesting, not a flat input: that is the deep/deepx class)
+    for byte in ("09", "05", "06", "00", "01", "02", "0b", "0c", "ff"):
+        for prefix in ("-", "0a7fffffff", "0300016b"):
+            yield "amf0 flat %s %s %d 2048" % (prefix, byte, 1000000 if tier == "thorough" else 300000)
     # --- nesting depth: decoded in a child process on a 2 MiB stack (deepx = the class of known finding K1) ---
     for d in (1, 10, 100, 1000, 3000):
         yield "amf0 deep %d 2048" % d
